@@ -53,6 +53,19 @@ CHECKS = {
              "token with identical text, unchanged surrounding token types, comments never change other tokens.",
         note="single-token rendering is required; UnsupportedError counts as declared-unsupported. " + TRUST,
         design="2/C04"),
+    "C05": dict(
+        category="exploration", engine="E1",
+        technique="exhaustive enumeration of 1-mutation neighbourhoods, prefixes, token soups, short character strings and pumping families; deterministic step-budget (sys.monitoring) termination oracle",
+        text="All single-token mutants (delete/duplicate/swap, and insertion of each of 40 menu tokens for the simplest seeds) and all "
+             "prefixes of G_core k<=1 statements and an identity.sql slice, all token soups of length <= 3 over a 40-token menu, all "
+             "character strings of length <= 3 over a 34-character alphabet and 25 pumping families are tokenized and parsed under the "
+             "error levels, and every returned tree is generated in its own and the base dialect. The outcome must be a return or a "
+             "SqlglotError; work is measured by a deterministic step counter (calls + loop back-edges in sqlglot code) against a fixed "
+             "quadratic budget, so a non-terminating loop is reported deterministically, and pumping families may at most x5 their "
+             "steps when doubled.",
+        note="quick: 8 dialects, thorough: all 34; nesting judged to depth 32; leaks already present on the pinned tree are listed as "
+             "known findings keyed by (phase, exception type, raising function). " + TRUST,
+        design="2/C05"),
     "C06": dict(
         category="model_checking", engine="E1",
         technique="exhaustive enumeration of expressions (states) x every observed rewrite step (transitions), truth-table equality under every assignment as invariant; evaluator cross-validated against DuckDB",
